@@ -7,9 +7,10 @@ Everything is traced from the LIVE classes on a symbolic pandas Series `pva`
                                 compute_state_difference uses)
   to_output3d / to_output2d     InsErrorModel(with_altitude).transform_to_output(pva)   9x9 / 9x7
   t32 / t23                     _transform_3d_2d(VN, VE) 9x7 / TRANSFORM_2D_3D 7x9
-  to_internal3d / to_internal2d transform_to_internal(pva); np.linalg.inv is a PRIMITIVE: its result is
-                                the symbolic matrix inv00..inv88 (parameters), its argument is reported
-                                as outputs a00..a88 so that Coq can check it is to_output3d
+  to_internal3d / to_internal2d transform_to_internal(pva); np.linalg.inv is a PRIMITIVE: its result is the
+                                symbolic matrix inv00..inv88 (the 81 parameters of these functions);
+  to_internal3d_arg / 2d_arg    the matrix handed to np.linalg.inv (outputs a00..a88, function of pva), so that
+                                Coq can check it is to_output3d
   correct3d / correct2d         correct_pva(pva, x) for symbolic x (from_rotvec -> rotvec_mij, as_euler -> euler_*)
   perturb_pva                   sim.perturb_pva(pva, e)
   state_diff                    transform.compute_state_difference(Series, Series) (to_180_range -> wrap180_r)
